@@ -1573,6 +1573,8 @@ class Interp:
         m = _lib.method_of(self, obj, name)
         if m is not None:
             return m
+        if obj is None or isinstance(obj, (bool, int, Fraction)):
+            self.raise_py("AttributeError", f"{type(obj).__name__} object has no attribute {name}")
         raise Unsupported(f"attribute {name} of {obj!r}")
 
     def _missing_mod_attr(self, mod, name):
